@@ -730,9 +730,10 @@ def part_websocket(ctx, k):
                                    if variant.startswith('admin') else
                                    variant, conv, k)
     ctx.count('websocket_conversations')
-    if not (a['all_handled_before_close'] and b['all_handled_before_close']):
-        # (wall-clock watchdog fired on a loaded machine: the order of the
-        # last handler and the disconnect handler is then the machine's)
+    if not a['all_handled_before_close']:
+        # (the 8 s wall-clock watchdog fired on the *plain* server: a stalled
+        # machine, nothing to compare with; an instrumented server that does
+        # not get an event handled which the plain one does is a difference)
         ctx.count('websocket_conversations_not_completed')
         return
     ctx.count('websocket_frames_compared', len(a['frames_to_client']))
